@@ -2,6 +2,7 @@
 from __future__ import annotations
 
 import copy
+import enum
 import datetime as dt
 import pickle
 
@@ -32,6 +33,15 @@ ASSUMPTIONS = ["Scalar / Vector / XYData / bintime arrays / ExtendedPropertyDict
                "real objects (their container behaviour is modelled under C17-C19)"]
 
 HOW = ["p2", "p3", "p4", "p5", "default", "deepcopy"]
+
+
+class _Color(enum.IntEnum):
+    RED = 1
+    BLUE = 2
+
+
+class _MyFloat(float):
+    pass
 
 
 def dup(x, how):
@@ -159,6 +169,14 @@ def run(ctx):
     boolfirst = Vector([1, True]); del boolfirst[0]
     boolfirst2 = Vector([1, True, 2]); del boolfirst2[0]
     vecs += [emptied, boolfirst, boolfirst2]
+    # value types that are strict subclasses of the four supported ones (NumPy scalars, an IntEnum, a user class), also after the vector
+    # was emptied or lost the element the type came from
+    for mk in (lambda: Vector([np.float64(1.5), np.float64(2.5)]), lambda: Vector([np.str_("a"), np.str_("b")]), lambda: Vector([_Color.RED, _Color.BLUE]),
+               lambda: Vector([_MyFloat(1.25), _MyFloat(2.0)]), lambda: Vector([np.int64(3), np.int64(4)]) if issubclass(np.int64, int) else Vector([3, 4])):
+        full = mk(); vecs.append(full)
+        e1 = mk(); e1.clear(); vecs.append(e1)
+        e2 = mk(); del e2[0]; vecs.append(e2)
+        e3 = mk(); e3[:] = []; vecs.append(e3)
     # long vectors (whatever a compact encoding would do with them): 64-bit edge values mixed with small ones, huge ints, signed zeros,
     # NaN-free floats of every magnitude, bools inside an int vector, long str vectors
     edge = [0, 1, -1, 255, 2 ** 31, -2 ** 31, 2 ** 32 - 1, 2 ** 53 + 1, 2 ** 63 - 1, 2 ** 63, 2 ** 63 + 1, 2 ** 64 - 1, -2 ** 63, -2 ** 63 - 1, 2 ** 64, 10 ** 30]
@@ -175,7 +193,14 @@ def run(ctx):
         return ([(type(x).__name__, repr(x)) for x in v], v.units, v._value_type.__name__, list(v.extended_properties.items()))
 
     def vmut(v):
-        v.append({"int": 7, "bool": True, "float": 1.0, "str": "q"}[v._value_type.__name__])
+        t = v._value_type
+        base = {"int": 7, "bool": True, "float": 1.0, "str": "q"}
+        if t.__name__ in base and t in (int, bool, float, str):
+            v.append(base[t.__name__])
+        elif issubclass(t, enum.Enum):
+            v.append(list(t)[0])
+        else:
+            v.append(t(base["str" if issubclass(t, str) else "float" if issubclass(t, float) else "int"]))
     for v in vecs:
         check_value(ctx, "Vector", v, vobs, vmut)
         # the copy accepts exactly what the original accepts
